@@ -110,11 +110,76 @@ def oracle_ranges(impl, ranges_sx, reg_sx, prec):
     return out
 
 
+def parse_inline(amt):
+    """`0` | `N C` | `(N C + N C)` -> {commodity: Fraction}"""
+    inner = amt.strip()
+    if inner.startswith("(") and inner.endswith(")"):
+        inner = inner[1:-1]
+    dd = {}
+    if inner != "0" and inner != "":
+        for part in inner.split(" + "):
+            v, _, c = part.partition(" ")
+            dd[c] = dd.get(c, Fraction(0)) + Fraction(v.replace(",", ""))
+    return dd
+
+
+def split_amounts(rest):
+    """the amount and the running total of a register row: each is `0`, `N C` or a parenthesised sum"""
+    out = []
+    i = 0
+    while i < len(rest):
+        if rest[i] == " ":
+            i += 1
+            continue
+        if rest[i] == "(":
+            j = rest.index(")", i) + 1
+            out.append(rest[i:j])
+            i = j
+            continue
+        j = rest.find(" ", i)
+        if j < 0:
+            out.append(rest[i:])
+            break
+        num = rest[i:j]
+        if num == "0" and (j + 1 >= len(rest) or rest[j + 1] in "(-0123456789"):
+            out.append("0")
+            i = j + 1
+            continue
+        k = rest.find(" ", j + 1)
+        # a commodity may not contain blanks; `N C` then the next item
+        if k < 0:
+            out.append(rest[i:])
+            break
+        out.append(rest[i:k])
+        i = k + 1
+    return out
+
+
+def declared_places(text, commodity):
+    import re
+    m = re.search(r"^commodity %s\n(?:[ \t]+[^\n]*\n)*?[ \t]+format ([0-9,]*)(?:\.([0-9]*))? " % re.escape(commodity), text, re.M)
+    if not m:
+        return None
+    return len(m.group(2) or "")
+
+
+def rnd(v, places):
+    if places is None:
+        return v
+    q = v * 10 ** places
+    f = q.numerator // q.denominator
+    r = q - f
+    if r > Fraction(1, 2) or (r == Fraction(1, 2) and f % 2 == 1):
+        f += 1
+    return Fraction(f, 10 ** places)
+
+
 def cli_cross_check(chk, cases):
     """the real binary: balance [--start --end] and register agree with the in-process answers"""
     d = os.path.join(WORK, "C04", "cli")
     os.makedirs(d, exist_ok=True)
     n = 0
+    nreg, nconv = [0], [0]
     for cid, text, ranges_sx in cases:
         path = os.path.join(d, "%s.ledger" % cid)
         open(path, "w").write(text)
@@ -146,11 +211,64 @@ def cli_cross_check(chk, cases):
                 chk.oracle_failures += 1
                 chk.violation("C04: `okane balance` prints a different balance than Ledger::balance for the same range",
                               {"cmd": cmd, "ledger": text, "stdout": p.stdout, "in_process": {a: fmt_amt(v) for a, v in want.items()}})
+        # ---- the register COMMAND (RegisterCmd::run keeps its own running total): for every account the last row's total is
+        # what `okane balance` reports for that account (whole history, same file)
+        pb = subprocess.run([OKANE, "balance", path], stdout=subprocess.PIPE, stderr=subprocess.PIPE, text=True, timeout=20)
+        whole = {}
+        for line in pb.stdout.splitlines():
+            a, _, amt = line.rpartition(": ")
+            whole[a] = parse_inline(amt)
+        for acct in sorted(whole)[:6]:
+            pr = subprocess.run([OKANE, "register", path, acct], stdout=subprocess.PIPE, stderr=subprocess.PIPE, text=True, timeout=20)
+            nreg[0] += 1
+            rows = [l for l in pr.stdout.splitlines() if l.startswith(acct + " ")]
+            if pr.returncode != 0 or not rows:
+                continue
+            rest = rows[-1][len(acct) + 1:]
+            parts = split_amounts(rest)
+            if len(parts) != 2:
+                continue
+            total = {c: v for c, v in parse_inline(parts[1]).items() if v != 0}
+            want = {c: v for c, v in whole[acct].items() if v != 0}
+            if total != want:
+                chk.oracle_failures += 1
+                chk.violation("C04: the last row of `okane register FILE ACCOUNT` ends at %s, `okane balance FILE` reports %s for %s" %
+                              (fmt_amt(total), fmt_amt(want), acct),
+                              {"cmd": [OKANE, "register", path, acct], "ledger": text, "register": pr.stdout[-1500:], "balance": pb.stdout})
+        # ---- a report "converted" into the ledger's ONLY commodity is the report itself, over any range
+        comms = set(c for v in whole.values() for c in v)
+        if len(comms) == 1:
+            c0 = next(iter(comms))
+            prec = declared_places(text, c0)
+            for rr in ranges_sx[:3]:
+                cmd = [OKANE, "balance", path, "-X", c0, "--now", "2999-01-01"]
+                if rr[0] != "-":
+                    cmd += ["--start", rr[0]]
+                if rr[1] != "-":
+                    cmd += ["--end", rr[1]]
+                p = subprocess.run(cmd, stdout=subprocess.PIPE, stderr=subprocess.PIPE, text=True, timeout=20)
+                nconv[0] += 1
+                if p.returncode != 0:
+                    continue
+                want = {dec(x[0]): {c: rnd(v, prec) for c, v in sexp.amount(x[1]).items()} for x in rr[2]}
+                want = {a: {c: v for c, v in d0.items() if v != 0} for a, d0 in want.items()}
+                got = {}
+                for line in p.stdout.splitlines():
+                    a, _, amt = line.rpartition(": ")
+                    got[a] = {c: rnd(v, prec) for c, v in parse_inline(amt).items() if rnd(v, prec) != 0}
+                want = {a: d0 for a, d0 in want.items() if d0}
+                got = {a: d0 for a, d0 in got.items() if d0}
+                if got != want:
+                    chk.oracle_failures += 1
+                    chk.violation("C04: `okane balance -X %s` over a range of a ledger whose only commodity is %s differs from the balance of that range" % (c0, c0),
+                                  {"cmd": cmd, "ledger": text, "stdout": p.stdout, "range_balance": {a: fmt_amt(v) for a, v in want.items()}})
         try:
             os.remove(path)
         except OSError:
             pass
     chk.streams["cli balance runs"] = n
+    chk.streams["cli register runs"] = nreg[0]
+    chk.streams["cli identity-conversion runs"] = nconv[0]
 
 
 def run(chk):
